@@ -93,6 +93,9 @@ func run(h *common.History) {
 		if ns == 0 {
 			return time.Time{}
 		}
+		if ns == 1 || ns == 2 {
+			return time.Unix(0, ns-1) // the customary "already expired" sentinels: the Unix epoch and one nanosecond after it
+		}
 		return t0.Add(time.Duration(ns))
 	}
 	reqCh := make(chan int, 1024) // size of the destination slice of the requested read
@@ -217,6 +220,9 @@ func gen(r *rand.Rand, kind int) *common.History {
 				d = fresh(now - 1000*ms - r.Int64N(1000)) // already past
 				if d >= now {
 					d = 0
+				}
+				if r.IntN(3) == 0 {
+					d = 1 + r.Int64N(2) // long past: time.Unix(0, 0) or time.Unix(0, 1)
 				}
 			case 2:
 				d = fresh(now + 10*ms)
